@@ -178,10 +178,16 @@ type EvalCase struct {
 	Built *xsel.Grammar // when set: executed instead of building Xpath anew
 }
 
+// VERIF_TRACE=1: name every evaluation on stderr before it runs (to find one that does not return)
+var traceCases = os.Getenv("VERIF_TRACE") != ""
+
 func (w *Writer) Eval(c EvalCase) string {
 	var impl string
 	line := fmt.Sprintf("eval %s %s %d %s", c.Doc.Id, c.Env.Sexp(), c.Start, Sexp(c.E))
 	built := c.Built
+	if traceCases {
+		fmt.Fprintf(os.Stderr, "trace %s %s start=%d %s\n", c.Fam, c.Doc.Id, c.Start, c.Xpath)
+	}
 	if built == nil {
 		// built ONCE: the forest that is exported below is the forest that is executed
 		func() {
